@@ -1026,13 +1026,13 @@ package scipipe
 //@   ensures merged-unbuffered[C05]: chanCap(merged) == 0
 //@ func (*Sink).Run$1()
 //@   props C05
-//@   modifies chan
+//@   modifies chan(p.inPorts["sink_in"].Chan), chansend
 //@   atsend token-only-after-drain[C05]: $ch == merged && chanRecvN(p.inPorts["sink_in"].Chan) == chanTotal(p.inPorts["sink_in"].Chan)
 //@   ensures one-token[C05]: chanSentN(merged) == old(chanSentN(merged)) + 1
 //@   loop 0 invariant stable: p == old(p) && merged == old(merged) && chanSentN(merged) == old(chanSentN(merged))
 //@ func (*Sink).Run$2()
 //@   props C05
-//@   modifies chan
+//@   modifies chan(p.inParamPorts["param_sink_in"].Chan), chansend
 //@   atsend token-only-after-drain[C05]: $ch == merged && chanRecvN(p.inParamPorts["param_sink_in"].Chan) == chanTotal(p.inParamPorts["param_sink_in"].Chan)
 //@   ensures one-token[C05]: chanSentN(merged) == old(chanSentN(merged)) + 1
 //@   loop 0 invariant stable: p == old(p) && merged == old(merged) && chanSentN(merged) == old(chanSentN(merged))
